@@ -29,7 +29,7 @@ def tasks(tier, seed):
           Task('uri_and_inline_forwarding', MOD, 'task_uri_forwarding', (), fuc=['segno.QRCode.svg_inline', 'segno.QRCode.svg_data_uri', 'segno.QRCode.png_data_uri',
                                                                                   'segno.writers.as_svg_data_uri', 'segno.writers.as_png_data_uri']),
           Task('sequence_save', MOD, 'task_sequence_save', (), fuc=['segno.QRCodeSequence.save'])]
-    for k in range(8 if tier == 'quick' else 64):
+    for k in range(16 if tier == 'quick' else 64):
         ts.append(Task('bounded_routes[%d]' % k, MOD, 'task_bounded_routes', (seed + 1009 * (k // 8), k % 8), backend='bounded',
                        fuc=['segno.writers.save', 'segno.cli.main', 'segno.cli.build_config', 'segno.cli.make_code'], weight=30))
     return ts
